@@ -30,6 +30,7 @@ import (
 	"sync/atomic"
 	"time"
 
+	"tunnox-core/internal/client/mapping"
 	"tunnox-core/internal/cloud/constants"
 	"tunnox-core/internal/utils/iocopy"
 )
@@ -172,6 +173,8 @@ type streamFake struct {
 	empties      []bool
 	readIdx      int
 	writeAfterCW int
+	beforeRead  func(idx int) // called (without the lock) at the start of the idx-th Read
+	readCalls   int
 	hcInvisible bool   // the wrapping turns tryCloseWrite into a no-op: the gate opens on the peer's end instead
 	peerEnded   *int32 // set (atomically) by the peer endpoint when it has reported its end to the relay
 	selfEnded   int32
@@ -207,6 +210,13 @@ func newStreamFake(name string, s streamSpec, log *evlog, spin chan string) *str
 func (f *streamFake) endErr() error { return endErrOf(f.end) }
 
 func (f *streamFake) Read(p []byte) (int, error) {
+	if f.beforeRead != nil {
+		f.mu.Lock()
+		idx := f.readCalls
+		f.readCalls++
+		f.mu.Unlock()
+		f.beforeRead(idx)
+	}
 	f.mu.Lock()
 	defer f.mu.Unlock()
 	if len(p) == 0 {
@@ -534,6 +544,8 @@ type caseIn struct {
 	A streamSpec `json:"a"`
 	B streamSpec `json:"b"`
 	Big bool `json:"big"` // do not echo payloads (Go-side predicate only)
+	FeedAgeS int `json:"feed_age_s"` // vconn: virtual seconds of application silence before every further tunnel read
+	Trickle  int `json:"trickle"`    // udptrickle: number of datagrams the local side is prepared to trickle
 	Pre int  `json:"pre"` // udpgate: datagrams that leave alone through a timed flush before the stalled one
 }
 
@@ -620,6 +632,8 @@ type caseOut struct {
 	R       *realObs `json:"r,omitempty"` // udpreal / vconn modes
 	G       *gateObs `json:"g,omitempty"` // udpgate mode
 	TC      *tcObs   `json:"tc,omitempty"` // udptc mode
+	TR      *tcpRealObs `json:"tr,omitempty"` // tcpreal mode
+	TK      *trickleObs `json:"tk,omitempty"` // udptrickle mode
 }
 
 func (o *caseOut) fail(key, format string, a ...interface{}) {
@@ -966,6 +980,10 @@ func runCase(raw json.RawMessage) interface{} {
 		runUDPGateCase(&c, out)
 	case "udptc":
 		runUDPTCCase(&c, out)
+	case "tcpreal":
+		runTCPRealCase(&c, out)
+	case "udptrickle":
+		runUDPTrickleCase(&c, out)
 	default:
 		panic("bad mode " + c.Mode)
 	}
@@ -1097,6 +1115,20 @@ func gen() {
 	fmt.Printf("Definition UdpWriteBatch : N := %s.    (* tunnel->UDP: const batchSize *)\n", one("const:batchSize", 0))
 	fmt.Printf("Definition UdpBatchWriterCap : N := %s. (* tunnel->UDP: newUDPBatchWriter(realUDP, _): messages the sendmmsg writer can hold *)\n", one("call:newUDPBatchWriter", 0))
 	defer genRetryTable()
+	// socket options / deadlines the relay code sets on the connections it relays (whole file, syntax tree, no comments)
+	opts := map[string]bool{"SetLinger": true, "SetDeadline": true, "SetReadDeadline": true, "SetWriteDeadline": true,
+		"SetKeepAlive": true, "SetKeepAlivePeriod": true, "SetReadBuffer": true, "SetWriteBuffer": true}
+	var optCalls []string
+	ast.Inspect(f, func(n ast.Node) bool {
+		if call, ok := n.(*ast.CallExpr); ok {
+			if sel, ok := call.Fun.(*ast.SelectorExpr); ok && opts[sel.Sel.Name] {
+				optCalls = append(optCalls, fmt.Sprintf("%s@%d", sel.Sel.Name, fset.Position(call.Pos()).Line))
+			}
+		}
+		return true
+	})
+	fmt.Printf("Definition RelaySocketOptionCalls : N := %d. (* SetLinger / Set*Deadline / SetKeepAlive* / Set*Buffer calls in copy.go: %v *)\n", len(optCalls), optCalls)
+	fmt.Printf("Definition UdpSessionTTLSeconds : N := %d. (* internal/client/mapping udpSessionTTL *)\n", mapping.VerifUDPSessionTTLSeconds())
 	fmt.Printf("Definition UdpFlushAtLeast : bool := %s. (* tunnel->UDP: the in-loop flush test is len(pendingPackets) >= batchSize *)\n", flushCmp(udp))
 }
 
